@@ -301,21 +301,26 @@ func runC08(x *Ctx) {
 
 // callOrder tells whether on path v a call to first precedes a call to second.
 func callOrder(v paths.VPath, first, second string) bool {
-	seenFirst := false
-	for _, c := range v.Calls() {
-		g := paths.StaticCallee(c)
-		if g == nil {
-			continue
+	seenFirst, res, decided := false, false, false
+	v.InstrsIn(func(in ssa.Instruction, c *paths.Ctx) {
+		call, ok := in.(*ssa.Call)
+		if !ok || decided {
+			return
 		}
-		n := paths.FuncName(g)
+		n := ""
+		if g := paths.StaticCallee(call); g != nil {
+			n = paths.FuncName(g)
+		} else if ct := c.Term(call); ct != nil && ct.Op == "call" {
+			n = ct.Name // a call through a function value the path knows (a method value handed to a helper)
+		}
 		if n == first {
 			seenFirst = true
 		}
 		if n == second {
-			return seenFirst
+			res, decided = seenFirst, true
 		}
-	}
-	return false
+	})
+	return res
 }
 
 // packageCodecs: every decoder / encoder value handed to go-ipld-prime in the given packages is one of the
